@@ -464,6 +464,7 @@ func (e *Exec) resetPath() {
 	e.ufCount = 0
 	e.nativeState = map[string]interface{}{}
 	e.md5Calls = nil
+	e.vfsState = nil
 	e.noMerge = !e.cfg.Merge
 	e.pcSet = map[*Term]bool{}
 	e.fixedModel = Model{}
@@ -662,6 +663,16 @@ func (e *Exec) symIntercept(name string, args []Value) (Value, bool) {
 	case "symFmtFloatReset":
 		e.floatArgs = nil
 		return nil, true
+	case "symFSCrashAt":
+		e.fs().crashAt = e.concInt(args[0], "crash point")
+		return nil, true
+	case "symFSOps":
+		return tc.Const(64, uint64(e.fs().ops)), true
+	case "symFSPathCount":
+		return tc.Const(64, uint64(len(e.fs().paths))), true
+	case "symFSPath":
+		i := e.concInt(args[0], "path index")
+		return e.fs().paths[i], true
 	case "symMerge":
 		e.noMerge = e.boolTerm(args[0]) != tc.True
 		return nil, true
